@@ -348,10 +348,10 @@ Proof.
   vm_compute in E1. vm_compute in E2. inversion E1; subst. inversion E2; subst. cbn [cells]. discriminate.
 Qed.
 
-(** Finding: an interpolated-string key is treated as a literal and duplicated together with
-    the calls inside it.  Witness (source: [local n = 0 local function f() n += 1 return n end
-    local t = { k1 = 10 } t[`k{f()}`] += 1 return t.k1, n]): the original returns (11, 1), the
-    output of the rule fails (the second evaluation of the key yields "k2", [t.k2] is nil). *)
+(** Regression witness of a repaired defect (known_findings.txt, fixed: C06): an
+    interpolated-string key used to be treated as a literal and duplicated together with the calls
+    inside it.  Source: [local n = 0 local function f() n += 1 return n end
+    local t = { k1 = 10 } t[`k{f()}`] += 1 return t.k1, n]: original and output return (11, 1). *)
 Definition interp_key_witness : block :=
   Block [SLocal false [Param (of_string "n") None] [ENumber (NDec 0 None)];
          SLocalFunction (of_string "f")
@@ -365,8 +365,8 @@ Definition interp_key_witness : block :=
                    (ENumber (NDec 4607182418800017408 None))]
         (Some (LReturn [EField (EIdent (of_string "t")) (of_string "k1"); EIdent (of_string "n")])).
 
-Theorem compound_interp_key_refuted :
+Theorem compound_interp_key_once :
   run_chunk Luau 100 [] interp_key_witness = OutOk [] [RNum 4622382067542392832; RNum 4607182418800017408] /\
-  run_chunk Luau 100 [] (rule_compound_assign interp_key_witness) = OutErr [] /\
-  run_chunk L51 100 [] (rule_compound_assign interp_key_witness) = OutErr [].
+  run_chunk Luau 100 [] (rule_compound_assign interp_key_witness) = OutOk [] [RNum 4622382067542392832; RNum 4607182418800017408] /\
+  run_chunk L51 100 [] (rule_compound_assign interp_key_witness) = OutOk [] [RNum 4622382067542392832; RNum 4607182418800017408].
 Proof. vm_compute. repeat split. Qed.
